@@ -69,6 +69,8 @@ var OutsideAtoms = []OutsideAtom{
 	{ID: "unaryplus", Kind: "stmt", Code: "x = +x + 1", Site: "unaryExpr"},
 	{ID: "stringslice", Kind: "stmt", Code: "str2 := str[1:]\n\tx += uint64(len(str2))", Site: "sliceExpr on string (sliceElem)"},
 	{ID: "stringindex", Kind: "stmt", Code: "x += uint64(str[0])", Site: "indexExpr: index into unknown type"},
+	{ID: "stringless_named", Kind: "stmt", Code: "var k1 Key = Key(str)\n\tif k1 < Key(\"b\") {\n\t\tx += 7\n\t}\n\tif k1 >= Key(\"abd\") {\n\t\tx += 11\n\t}", Site: "binExpr: ordered comparison of a named string type"},
+	{ID: "stringless_field", Kind: "stmt", Code: "kh := &KeyHolder{k: Key(str)}\n\tif kh.k > Key(\"ab\") {\n\t\tx += 13\n\t}", Site: "binExpr: ordered comparison of a named string type"},
 	{ID: "stringless", Kind: "stmt", Code: "if str < \"b\" {\n\t\tx += 7\n\t}", Site: "binExpr on strings"},
 	{ID: "maplit", Kind: "stmt", Code: "m2 := map[uint64]uint64{1: 2}\n\tx += m2[1]", Site: "compositeLiteral: composite literal of type"},
 	{ID: "unkeyedlit", Kind: "stmt", Code: "h2 := H{5, 6, 7}\n\tx += h2.f + uint64(h2.g)", Site: "structLiteral: un-keyed struct literal field"},
@@ -118,6 +120,8 @@ var OutsideAtoms = []OutsideAtom{
 	{ID: "struct_in_map", Kind: "stmt", Code: "hm := make(map[uint64]H)\n\thm[1] = H{f: x}\n\tx += hm[1].f + hm[2].f", Site: "map of structs"},
 	// declaration-level atoms: each defines <ID>_fn(a uint64) uint64
 	{ID: "namedresult", Kind: "decl", Code: "func namedresult_fn(a uint64) (r uint64) {\n\tr = a + 1\n\treturn\n}", Site: "returnType: named returned value"},
+	{ID: "blankresult", Kind: "decl", Code: "func blankresult_two() (_ uint64, _ bool) {\n\treturn\n}\n\nfunc blankresult_one() (_ uint64) {\n\treturn\n}\n\nfunc blankresult_fn(a uint64) uint64 {\n\tv, ok := blankresult_two()\n\tif !ok {\n\t\treturn a + v + blankresult_one() + 1\n\t}\n\treturn 0\n}", Site: "returnType: named returned value (blank names)"},
+	{ID: "blankresult_explicit", Kind: "decl", Code: "func blankresult_explicit_h(a uint64) (_ uint64, _ bool) {\n\treturn a + 2, true\n}\n\nfunc blankresult_explicit_fn(a uint64) uint64 {\n\tv, ok := blankresult_explicit_h(a)\n\tif ok {\n\t\treturn v\n\t}\n\treturn 0\n}", Site: "returnType: named returned value (blank names, explicit return)"},
 	{ID: "variadic", Kind: "decl", Code: "func variadic_sum(xs ...uint64) uint64 {\n\tvar t uint64\n\tfor _, v := range xs {\n\t\tt += v\n\t}\n\treturn t\n}\n\nfunc variadic_fn(a uint64) uint64 {\n\treturn variadic_sum(a, 2, 3)\n}", Site: "variadic call"},
 	{ID: "embedded", Kind: "decl", Code: "type embInner struct {\n\tv uint64\n}\n\ntype embOuter struct {\n\tembInner\n\tw uint64\n}\n\nfunc embedded_fn(a uint64) uint64 {\n\to := &embOuter{w: a}\n\to.v = 5\n\treturn o.v + o.w\n}", Site: "structFields: unnamed (embedded) field"},
 	{ID: "multifield", Kind: "decl", Code: "type mf struct {\n\ta, b uint64\n}\n\nfunc multifield_fn(a uint64) uint64 {\n\tv := &mf{a: a, b: 2}\n\treturn v.a*10 + v.b\n}", Site: "structFields: multiple fields for same type"},
@@ -137,7 +141,9 @@ var OutsideAtoms = []OutsideAtom{
 // HostPositions are the places a statement atom is inserted at.
 var HostPositions = []string{"first", "middle", "last", "inif", "inloop", "inelse", "inclosure", "tailthen", "inrange", "ifinloop", "elseifarm", "loopinloop", "aftereturnif"}
 
-const hostPrelude = `var _ = sync.NewCond
+const hostPrelude = `func keepSync() *sync.Mutex {
+	return new(sync.Mutex)
+}
 
 func five(v uint64) (uint64, uint64, uint64, uint64, uint64) {
 	return v, 1, 2, 3, 4
@@ -156,6 +162,12 @@ func three(v uint64) (uint64, bool, uint32) {
 }
 
 type Seen map[uint64]bool
+
+type Key string
+
+type KeyHolder struct {
+	k Key
+}
 
 type Counts map[string]uint64
 
@@ -180,7 +192,9 @@ func applyFn(f func(uint64) uint64, v uint64) uint64 {
 	return f(f(v))
 }
 
-var _ = machine.UInt64Get
+func keepMachine(b []byte) uint64 {
+	return machine.UInt64Get(b)
+}
 
 type H struct {
 	f uint64
@@ -229,7 +243,7 @@ func AtomPackage(prefix string, a OutsideAtom) *Package {
 	var cases []string
 	args := []uint64{0, 3, 8}
 	if a.Kind == "decl" {
-		b.WriteString("var _ = sync.NewCond\n\nvar _ = machine.UInt64Get\n\n" + a.Code + "\n\n")
+		b.WriteString("func keepSync() *sync.Mutex {\n\treturn new(sync.Mutex)\n}\n\nfunc keepMachine(b []byte) uint64 {\n\treturn machine.UInt64Get(b)\n}\n\n" + a.Code + "\n\n")
 		for i, v := range args {
 			cn := fmt.Sprintf("case_%s_decl_%d", a.ID, i)
 			fmt.Fprintf(&b, "func %s() uint64 {\n\treturn %s_fn(%d)\n}\n\n", cn, a.ID, v)
